@@ -307,6 +307,12 @@ func c16Check(c C16Case, cx *h.Ctx) *h.Failure {
 		return fail("ctype/construct-readback", "constructed geometry reads back differently: %s", d)
 	}
 
+	// the flat-coordinate constructors (NewPointXYZ, NewMultiPointXYM, NewPolygonXYZM, ...) build the same geometry,
+	// with the same coordinate type everywhere and no stray Z/M
+	if f := c16FlatCtors(model, fail); f != nil {
+		return f
+	}
+
 	// sequences that are views of a longer parent (Sequence.Slice): nothing done to a geometry built on the view
 	// may write to the parent
 	if f := c16Views(model, fail, cx); f != nil {
@@ -544,6 +550,107 @@ func c16Check(c C16Case, cx *h.Ctx) *h.Failure {
 	return nil
 }
 
+// c16FlatCtors rebuilds a (member-wise non-empty) Point / LineString / Polygon / Multi* model through the
+// constructors of geom/ctor_from_coords.go and compares the result with the model.
+func c16FlatCtors(model gm.G, fail func(class, format string, args ...interface{}) *h.Failure) *h.Failure {
+	fl := func(fs []gm.F) []float64 {
+		out := make([]float64, len(fs))
+		for i, f := range fs {
+			out[i] = float64(f)
+		}
+		return out
+	}
+	ct := model.CT
+	var got geom.Geometry
+	switch model.T {
+	case gm.Point:
+		if len(model.Co) == 0 {
+			return nil
+		}
+		c := fl(model.Co)
+		got = [4]func() geom.Point{
+			func() geom.Point { return geom.NewPointXY(c[0], c[1]) },
+			func() geom.Point { return geom.NewPointXYZ(c[0], c[1], c[2]) },
+			func() geom.Point { return geom.NewPointXYM(c[0], c[1], c[2]) },
+			func() geom.Point { return geom.NewPointXYZM(c[0], c[1], c[2], c[3]) }}[ct]().AsGeometry()
+	case gm.LineString:
+		if len(model.Co) == 0 {
+			return nil
+		}
+		got = [4]func(...float64) geom.LineString{geom.NewLineStringXY, geom.NewLineStringXYZ, geom.NewLineStringXYM, geom.NewLineStringXYZM}[ct](fl(model.Co)...).AsGeometry()
+	case gm.MultiPoint:
+		var flat []float64
+		for _, m := range model.Mem {
+			if len(m.Co) == 0 {
+				return nil
+			}
+			flat = append(flat, fl(m.Co)...)
+		}
+		if len(flat) == 0 {
+			return nil
+		}
+		got = [4]func(...float64) geom.MultiPoint{geom.NewMultiPointXY, geom.NewMultiPointXYZ, geom.NewMultiPointXYM, geom.NewMultiPointXYZM}[ct](flat...).AsGeometry()
+	case gm.MultiLineString:
+		var seqs [][]float64
+		for _, m := range model.Mem {
+			if len(m.Co) == 0 {
+				return nil
+			}
+			seqs = append(seqs, fl(m.Co))
+		}
+		if len(seqs) == 0 {
+			return nil
+		}
+		got = [4]func(...[]float64) geom.MultiLineString{geom.NewMultiLineStringXY, geom.NewMultiLineStringXYZ, geom.NewMultiLineStringXYM, geom.NewMultiLineStringXYZM}[ct](seqs...).AsGeometry()
+	case gm.Polygon:
+		var rings [][]float64
+		for _, r := range model.Rings {
+			if len(r) == 0 {
+				return nil
+			}
+			rings = append(rings, fl(r))
+		}
+		if len(rings) == 0 {
+			return nil
+		}
+		got = [4]func(...[]float64) geom.Polygon{geom.NewPolygonXY, geom.NewPolygonXYZ, geom.NewPolygonXYM, geom.NewPolygonXYZM}[ct](rings...).AsGeometry()
+		if len(rings) == 1 {
+			single := [4]func(...float64) geom.Polygon{geom.NewSingleRingPolygonXY, geom.NewSingleRingPolygonXYZ, geom.NewSingleRingPolygonXYM, geom.NewSingleRingPolygonXYZM}[ct](rings[0]...).AsGeometry()
+			if d := gm.Diff(model, gm.FromGeom(single)); d != "" {
+				return fail("ctype/flat-constructor", "NewSingleRingPolygon%s builds a different geometry: %s", gm.CTName(ct), d)
+			}
+		}
+	case gm.MultiPolygon:
+		var polys [][][]float64
+		for _, m := range model.Mem {
+			if len(m.Rings) == 0 {
+				return nil
+			}
+			var rings [][]float64
+			for _, r := range m.Rings {
+				if len(r) == 0 {
+					return nil
+				}
+				rings = append(rings, fl(r))
+			}
+			polys = append(polys, rings)
+		}
+		if len(polys) == 0 {
+			return nil
+		}
+		got = [4]func(...[][]float64) geom.MultiPolygon{geom.NewMultiPolygonXY, geom.NewMultiPolygonXYZ, geom.NewMultiPolygonXYM, geom.NewMultiPolygonXYZM}[ct](polys...).AsGeometry()
+	default:
+		return nil
+	}
+	if m := c16Walk(got, geom.CoordinatesType(ct), "flat-coordinate constructor"); m != "" {
+		return fail("ctype/flat-constructor", "the %s constructor for %s: %s", gm.CTName(ct), model.T, m)
+	}
+	if d := gm.Diff(model, gm.FromGeom(got)); d != "" {
+		return fail("ctype/flat-constructor", "the %s flat-coordinate constructor for %s builds a different geometry: %s", gm.CTName(ct), model.T, d)
+	}
+	return nil
+}
+
 // c16Views: every line of the model is rebuilt as a Slice view into a parent sequence that continues with
 // sentinel positions; the line is placed first in a collection together with the other members, and the usual
 // read operations are applied; the parent must read back unchanged and the results must be those of a line built
@@ -621,6 +728,10 @@ func c16Mixed(c C16Case, model gm.G, fail func(class, format string, args ...int
 		common &= mct
 	}
 	var out geom.Geometry
+	// the caller's slice is the caller's: the constructor may neither change its elements (they keep the coordinate
+	// types they were given) nor keep using it (overwriting it afterwards does not change the collection)
+	var callerTypes func() []geom.CoordinatesType
+	var scribbleCaller func()
 	switch model.T {
 	case gm.MultiPoint:
 		pts := make([]geom.Point, len(members))
@@ -628,27 +739,77 @@ func c16Mixed(c C16Case, model gm.G, fail func(class, format string, args ...int
 			pts[i] = m.ToGeom().MustAsPoint()
 		}
 		out = geom.NewMultiPoint(pts).AsGeometry()
+		callerTypes = func() (ts []geom.CoordinatesType) {
+			for _, x := range pts {
+				ts = append(ts, x.CoordinatesType())
+			}
+			return
+		}
+		scribbleCaller = func() {
+			for i := range pts {
+				pts[i] = geom.NewPointXY(-777, -777)
+			}
+		}
 	case gm.MultiLineString:
 		ls := make([]geom.LineString, len(members))
 		for i, m := range members {
 			ls[i] = m.ToGeom().MustAsLineString()
 		}
 		out = geom.NewMultiLineString(ls).AsGeometry()
+		callerTypes = func() (ts []geom.CoordinatesType) {
+			for _, x := range ls {
+				ts = append(ts, x.CoordinatesType())
+			}
+			return
+		}
+		scribbleCaller = func() {
+			for i := range ls {
+				ls[i] = geom.NewLineStringXY(-777, -777, -776, -776)
+			}
+		}
 	case gm.MultiPolygon:
 		ps := make([]geom.Polygon, len(members))
 		for i, m := range members {
 			ps[i] = m.ToGeom().MustAsPolygon()
 		}
 		out = geom.NewMultiPolygon(ps).AsGeometry()
+		callerTypes = func() (ts []geom.CoordinatesType) {
+			for _, x := range ps {
+				ts = append(ts, x.CoordinatesType())
+			}
+			return
+		}
+		scribbleCaller = func() {
+			for i := range ps {
+				ps[i] = geom.NewSingleRingPolygonXY(-777, -777, -776, -777, -776, -776, -777, -777)
+			}
+		}
 	case gm.GeometryCollection:
 		gs := make([]geom.Geometry, len(members))
 		for i, m := range members {
 			gs[i] = m.ToGeom()
 		}
 		out = geom.NewGeometryCollection(gs).AsGeometry()
+		callerTypes = func() (ts []geom.CoordinatesType) {
+			for _, x := range gs {
+				ts = append(ts, x.CoordinatesType())
+			}
+			return
+		}
+		scribbleCaller = func() {
+			for i := range gs {
+				gs[i] = geom.NewPointXY(-777, -777).AsGeometry()
+			}
+		}
 	default:
 		return nil
 	}
+	for i, ctGot := range callerTypes() {
+		if want := geom.CoordinatesType(c.Mixed[i%len(c.Mixed)]); ctGot != want {
+			return fail("pure/caller-slice-modified", "the %s constructor changed element %d of the caller's slice from %s to %s", model.T, i, want, ctGot)
+		}
+	}
+	scribbleCaller()
 	if m := c16Walk(out, geom.CoordinatesType(common), "mixed constructor"); m != "" {
 		return fail("ctype/mixed-constructor", "constructor given members of coordinate types %v: %s", c.Mixed, m)
 	}
